@@ -20,9 +20,10 @@ def sh(cmd, cwd=None, envx=None):
 
 def main():
     prop = sys.argv[1]
-    wt = f"/tmp/seed-{prop}"
-    out = f"/tmp/seedout/{prop}"
     name = sys.argv[2] if len(sys.argv) > 2 else "a"
+    rnd = sys.argv[3] if len(sys.argv) > 3 else ""
+    wt = f"/tmp/seed{rnd}-{prop}"
+    out = f"/tmp/seedout{rnd}/{prop}"
     rc, diff = sh(["git", "-C", wt, "diff"])
     if not diff.strip():
         print("no uncommitted change in", wt)
